@@ -10,8 +10,7 @@ VR = ['arena', 'rawvec']
 
 PLAN = {
     'C01': dict(v=V, level='proof',
-                k_quick=['k_fast_448', 'k_dealloc'],
-                k_thorough=['k_fast_448_m8', 'k_fast_448_m16', 'k_fast_64_m2', 'k_fast_64_m4', 'k_fast_empty', 'k_dealloc_m8'],
+                k_quick=['k_fast_448', 'k_dealloc'], k_thorough=['k_fast_448_m8', 'k_fast_448_m16', 'k_fast_64_m2', 'k_fast_64_m4', 'k_fast_empty', 'k_dealloc_m8', 'k_grow', 'k_shrink', 'k_round_up_to', 'k_round_down_to', 'k_round_ptr'],
                 technique='deductive verification (Verus) of the real allocation functions against placement contracts + representation invariant; Kani memory-level stand-in',
                 explanation='Every allocating function (fast path, dispatcher, new_chunk, dealloc, shrink, grow, rewind regions, reset) is verified against a contract that '
                             'places the returned block inside [data, old finger) of a chunk held in the ledger, below the footer, with the frame "only the finger of the current '
@@ -19,20 +18,18 @@ PLAN = {
                             'lemma lemma_list_ptr_step lifts this to all histories. Unbounded: all sizes, alignments, MIN_ALIGN, chunk addresses. The Kani harnesses add CBMC '
                             'pointer checks on real memory for two chunk geometries (bounded).'),
     'C02': dict(v=V, level='model_checking',
-                k_quick=['k_fill_with_order'],
-                k_thorough=['k_rewind_keeps_inner_allocs'],
+                k_quick=['k_shrink', 'k_grow', 'k_fill_copy_clone', 'k_fill_with_order'], k_thorough=['k_shrink_odd', 'k_shrink_m8', 'k_shrink_align', 'k_shrink_notlast', 'k_grow_m8', 'k_grow_align', 'k_grow_notlast', 'k_glue_grow_zeroed', 'k_fill_str', 'k_rewind_keeps_inner_allocs'],
                 technique='Verus proves the address ranges of every copy (source/destination/non-overlap/length); byte contents are checked by bounded Kani harnesses',
                 explanation='Placement half is proof (preconditions of copy_nonoverlapping/copy shims in shrink/grow, frame clauses); the byte-level half (read-back, preserved '
                             'prefix, untouched neighbour, closure call order) is BOUNDED model checking: blocks of at most 8 bytes, slices of at most 3 elements, one 448-byte chunk.'),
     'C03': dict(v=V, scans=['c03'], level='proof',
-                k_quick=['k_list_1'],
-                k_thorough=['k_list_0', 'k_list_2', 'k_list_3'],
+                k_quick=['k_new_chunk', 'k_list_1'], k_thorough=['k_new_chunk_64', 'k_list_0', 'k_list_2', 'k_list_3'],
                 technique='Verus: ledger ghost state of the global allocator; dealloc shim requires the recorded (ptr, layout); unbounded chunk-list induction (ghost depth)',
                 explanation='new_chunk records exactly the (ptr, layout) the allocator returned; every global dealloc call is proved to pass a block that is in the ledger with '
                             'that layout and removes it (so never twice); dealloc_chunk_list is verified with a loop invariant over a list of ANY length to return exactly the '
                             'blocks of the list and to stop at the sentinel; Drop returns the whole list, reset all but the head; a source scan shows these are the only routes '
                             'to the global allocator. Moves between threads and "no reference alive" are ownership facts outside the technique (C05).'),
-    'C04': dict(v=V, level='proof', k_quick=[], k_thorough=['k_fast_448_m16'],
+    'C04': dict(v=V, level='proof', k_quick=[], k_thorough=['k_fast_448_m16', 'k_fast_448_m8', 'k_shrink_m8', 'k_grow_m8', 'k_dealloc_m8'],
                 technique='deductive verification (Verus, bit-vector lemmas) of alignment postconditions for all MIN_ALIGN, sizes, alignments and chunk base residues',
                 explanation='aligned(p, layout.align) and aligned(p, MIN_ALIGN) are postconditions of the fast path, shrink, grow and the dispatchers; aligned(finger, MIN_ALIGN) '
                             'is part of the invariant, established by the constructors (needs the alignment of the static sentinel, extracted from its #[repr]) and new_chunk, and '
@@ -47,30 +44,63 @@ PLAN = {
                 explanation='allocation_limit_remaining / chunk_fits_under_limit are verified against the property (headroom is Some while a limit is set, zero when over); the '
                             'fast path is complete and independent of the limit; new_chunk accounts exactly the usable bytes. That the slow path reaches new_chunk only for admitted '
                             'candidates is checked by Kani on the real function (bounded: one request, concrete request sizes, symbolic limit, nondeterministic refusals).'),
-    'C08': dict(v=V, level='proof', k_quick=['k_list_1'], k_thorough=['k_list_0', 'k_list_2', 'k_list_3'],
+    'C08': dict(v=V, level='proof', k_quick=['k_list_1'], k_thorough=['k_list_0', 'k_list_2', 'k_list_3', 'k_new_chunk'],
                 technique='Verus: accounting clause in the list invariant, induction lemma, contracts of the two getters',
                 explanation='list_wf carries allocated_bytes(a) == allocated_bytes(prev) + usable(a); lemma_accounting proves allocated_bytes == total bytes held - n*FOOTER_SIZE by '
                             'induction on a list of any length; new_chunk and reset establish the clause, no other function writes the field (frame clauses); '
                             'allocated_bytes_including_metadata is verified to return total_held (Iterator::count is an assumed shim).'),
-    'C09': dict(v=V, level='proof', k_quick=[], k_thorough=[],
+    'C09': dict(v=V, level='proof', k_quick=[], k_thorough=['k_ncmd', 'k_ncmd_m16', 'k_round_up_to'],
                 technique='Verus: absence of overflow/panic obligations on every try_ path, Err => frame; slow-path loop bounded by Kani',
                 explanation='Every arithmetic operation, debug_assert!, unwrap and panic shim on the try_ paths is a discharged obligation for all inputs; Err/None postconditions '
                             'state that nothing changed; infallible wrappers return only what the fallible twin returns in Ok. Termination of the halving loop and allocator-failure '
                             'injection are checked by Kani (bounded, see finding F8 for the zero-size corner).'),
-    'C10': dict(v=V, level='proof', k_quick=['k_list_1'], k_thorough=['k_list_2', 'k_list_3'],
+    'C10': dict(v=V, level='proof', k_quick=['k_list_1'], k_thorough=['k_list_2', 'k_list_3', 'k_try_fill_new_chunk'],
                 technique='Verus contracts of ChunkRawIter::next / as_raw_parts over the unbounded list + no-padding clause of the fast path',
                 explanation='next() is verified to yield [finger, footer) of the current chunk and to step to prev, stopping exactly at the sentinel, for a list of any length; '
                             'fast.no_padding shows uniform allocations are adjacent. The safe iterator is a thin wrapper over the raw one (not extracted; Kani compares them, bounded).'),
-    'C11': dict(v=V, level='proof', k_quick=['k_rewind', 'k_try_fill_releases', 'k_rewind_keeps_inner_allocs'], k_thorough=['k_rewind_m16'],
+    'C11': dict(v=V, level='proof', k_quick=['k_rewind', 'k_try_fill_releases', 'k_rewind_keeps_inner_allocs', 'k_try_fill_new_chunk', 'k_rewind_new_chunk'], k_thorough=['k_rewind_m16'],
                 technique='Verus on the mechanically extracted Err arms of alloc_try_with/try_alloc_try_with + dealloc contract; ownership of the error value by Kani',
                 explanation='The rewind regions are verified against rewind_post (not last => nothing changes; same chunk => finger restored; new chunk => whole chunk free again). '
                             'Exactly-once delivery of E and "initialiser not run when the reservation fails" are checked by Kani with a drop-counting error type (bounded).'),
-    'C12': dict(v=V, level='proof', k_quick=[], k_thorough=['k_dealloc'],
+    'C12': dict(v=V, level='proof', k_quick=['k_shrink', 'k_grow', 'k_glue_alloc_shrink_dealloc', 'k_glue_grow_zeroed'], k_thorough=['k_shrink_odd', 'k_shrink_m8', 'k_shrink_align', 'k_shrink_notlast', 'k_grow_m8', 'k_grow_align', 'k_grow_notlast', 'k_dealloc'],
                 technique='Verus contracts of dealloc/shrink/grow for arbitrary old/new layouts; trait glue and contents by Kani',
                 explanation='Result fits the new layout (size, both alignments), Err => nothing changed, in-place moves stay inside the old block and never overlap source and '
                             'destination, fresh blocks are disjoint from the old one; deallocate of a non-last block is a no-op. The Allocator glue (slice length, zeroed tail) and '
                             'byte preservation are bounded Kani harnesses.'),
-    'C16': dict(v=['vecpanic'], level='proof', k_quick=[], k_thorough=[],
+    'C13': dict(v=['rawvec'], level='model_checking',
+                k_quick=['k_vec_insert_remove', 'k_vec_swap_remove_truncate', 'k_vec_drain', 'k_vec_append_split_off', 'k_vec_push_pop_grow', 'k_vec_shrink_moves', 'k_vec_insert_oob'],
+                k_thorough=['k_vec_insert_remove_ends', 'k_vec_drain_wide', 'k_vec_reserve_shrink_small', 'k_vec_drain_filter', 'k_vec_zst', 'k_ovf_vec', 'k_vec_remove_oob',
+                            'k_vec_swap_remove_oob', 'k_vec_split_off_oob', 'k_vec_drain_oob', 'k_vec_drain_inverted', 'k_drop_dedup', 'k_box_from_vec_then_alloc'],
+                technique='bounded model checking (Kani) of the real Vec operations against a sequence model; Verus on the RawVec growth arithmetic',
+                explanation='BOUNDED. Each harness runs one real Vec operation on a vector of length <= 3 (concrete shape, SYMBOLIC element values) next to other collections in the '
+                            'same arena and compares with a sequence model of std\'s documented behaviour; out-of-range arguments are should_panic twins. Symbolic lengths/indices '
+                            'were measured to cost CBMC > 30 GB, so index arguments are selected concrete values, not all values. The capacity arithmetic (amortized_new_size: >= '
+                            'required, >= 2*cap, overflow refused) is proved unbounded by Verus.'),
+    'C14': dict(v=['strbounds'], level='model_checking',
+                k_quick=['k_lossy_chunk_3', 'k_width_table', 'k_str_insert_mid', 'k_str_truncate_split', 'k_str_drain', 'k_str_insert_non_boundary'],
+                k_thorough=['k_lossy_chunk_2', 'k_lossy_chunk_4', 'k_str_insert_ends', 'k_str_remove', 'k_str_lossy_truncated', 'k_str_truncate_non_boundary',
+                            'k_str_split_off_non_boundary', 'k_str_remove_past_end'],
+                technique='Kani: forked lossy UTF-8 decoder against the Unicode definition on ALL byte strings of length <= 4 (symbolic), width table complete; String operations '
+                          'on a fixed mixed-width text; Verus: char-boundary contract of replace_range for every range form',
+                explanation='BOUNDED for the operations (the text "a\u00e9\u20ac", selected boundary and non-boundary indices, exact byte comparison with the expected text); COMPLETE for the first '
+                            'chunk of the lossy decoder on all inputs of length <= 4 and for the 256-entry width table (loop-free / fully symbolic); replace_range\'s boundary '
+                            'assertions are proved by Verus to put both ends of the removed byte range on char boundaries for Included/Excluded/Unbounded ends. from_utf16_in, '
+                            'retain, pop and replace_range as whole operations exceeded the CBMC budget and are not decided.'),
+    'C15': dict(v=[], level='model_checking',
+                k_quick=['k_drop_vec_ops', 'k_drop_iters', 'k_drop_forgotten_iterators', 'k_drop_no_destructors', 'k_drop_dedup', 'k_drop_zst'],
+                k_thorough=['k_drop_dedup_retain', 'k_box_drop_once', 'k_box_slices_arrays'],
+                technique='bounded model checking (Kani) with a per-element drop ledger on the real Vec/Box code',
+                explanation='BOUNDED: vectors of <= 3 elements whose Drop bumps a per-id counter; pop/remove/swap_remove/truncate/drain/into_iter (partially consumed)/dedup/retain/'
+                            'forgotten Drain and DrainFilter/zero-sized elements/into_bump_slice/arena reset. Non-panicking paths only. IntoIter over zero-sized elements reaches a '
+                            'construct Kani cannot model (arithmetic on dangling pointers) and is not exercised.'),
+    'C17': dict(v=[], level='model_checking',
+                k_quick=['k_box_roundtrips', 'k_box_drop_once', 'k_box_slices_arrays', 'k_box_from_vec_then_alloc'],
+                k_thorough=['k_box_downcast', 'k_vec_shrink_moves'],
+                technique='bounded model checking (Kani) of the real Box code for fixed type instances with symbolic values',
+                explanation='BOUNDED in type instances (u32, [u32;3], [u8;3], (), dyn Any, a drop-counting type): value round trips through into_inner/into_raw/from_raw/leak/pin_in, '
+                            'array<->slice conversions incl. refused lengths, Vec->boxed slice followed by further arena allocations, downcast hit and miss, drop exactly once, and '
+                            'the bump finger unchanged by Box drop.'),
+    'C16': dict(v=['vecpanic'], level='proof', k_quick=['k_cb_retain_len_zero'], k_thorough=['k_drop_forgotten_iterators'],
                 technique='Verus callback-point contracts on the real truncate/extend_with bodies (what an unwind would restore); partial',
                 explanation='PARTIAL. Neither Verus nor Kani can execute an unwind. For the operations that protect themselves with the SetLenOnDrop guard (truncate, '
                             'and through it clear/resize-shrink/dedup*; extend_with, i.e. resize-grow/extend_from_slice) every call into user code (element destructor, Clone) '
@@ -78,15 +108,15 @@ PLAN = {
                             'all lengths. Operations guarded by other means (drain/drain_filter/retain/splice/IntoIter/String::retain, arena slice fills, Box) are NOT decided; '
                             'String::retain and DrainFilter are known findings observed natively (F6).',
                 assumptions=['element values are abstracted to slot indices (rewrite R16); Vec::reserve is an assumed shim in this unit']),
-    'C18': dict(v=VR, level='proof', k_quick=[], k_thorough=[],
+    'C18': dict(v=VR, level='proof', k_quick=['k_vec_shrink_moves'], k_thorough=['k_vec_reserve_shrink_small', 'k_ncmd'],
                 technique='Verus: capacity postcondition of the constructor, chunk_capacity spec + fast-path completeness; growth policy by Kani; RawVec arithmetic by Verus',
                 explanation='try_with_min_align_and_capacity(c) is verified to return an arena whose current chunk has finger - data >= c; chunk_capacity returns finger - data and '
                             'fast.complete says every request with rup(size) <= that fits. "New chunk >= 2x previous" is a bounded Kani check of the real slow path.'),
-    'C19': dict(v=VR, level='proof', k_quick=[], k_thorough=[],
+    'C19': dict(v=VR, level='proof', k_quick=['k_ovf_vec'], k_thorough=['k_ncmd', 'k_ncmd_m16', 'k_round_up_to'],
                 technique='Verus: checked arithmetic obligations for all sizes up to usize::MAX; Kani on the generic entry points at the refusing side',
                 explanation='round_up_to/layout_from_size_align/new_chunk_memory_details/grow are verified to refuse exactly the unrepresentable sizes and never to wrap; on success the '
                             'reserved extent equals the request.'),
-    'C20': dict(v=V, scans=['c20'], level='proof', k_quick=[], k_thorough=['k_fast_empty'],
+    'C20': dict(v=V, scans=['c20'], level='proof', k_quick=[], k_thorough=['k_fast_empty', 'k_rewind_new_chunk'],
                 technique='Verus write-permission obligations (the shared sentinel is never written) + frame clauses + source scan for global state; sequential argument only',
                 explanation='Every footer write goes through a shim whose precondition is "not the static sentinel"; all of them are discharged, so no arena operation writes shared '
                             'memory; frame clauses confine each operation to its own Bump value, its own chunks and the allocator ledger; a scan shows EMPTY_CHUNK is the only static. '
